@@ -150,6 +150,18 @@ Theorem C11_session_partitions_rows :
 Proof. exact session_partitions_rows. Qed.
 Print Assumptions C11_session_partitions_rows.
 
+(* Round 6: the SAME list of tables converted any number of times (each conversion with its own size and its own
+   way of being consumed): every conversion delivers the rows of ALL the tables, cut to its size, whatever was
+   converted before, and the caller's list still holds all its tables. *)
+Theorem C11_caller_list_sessions :
+  forall (R T : Type) (process_table : T -> N -> list R) (rows_of : T -> list R),
+  (forall t b, (1 <= b)%N -> process_table t b = rows_of t) ->
+  forall (tables : list T) (ops : list (option N * list iop)),
+  lrun process_table tables ops =
+  map (fun op => (ispec (limit (fst op) (concat (map rows_of tables))) (snd op), length tables)) ops.
+Proof. exact caller_list_sessions. Qed.
+Print Assumptions C11_caller_list_sessions.
+
 (* ONE frame, any sequence of arrow(size) / rowcount / materialize() calls and in-place renames of its columns:
    every call answers from the rows E the frame holds and the column names in force at that moment ([sspec] is a
    function of E, the current names and the call alone - no memory of earlier calls). *)
